@@ -78,13 +78,38 @@ func c14Record(r *Rng, tier string) (dastard.VerifRecord, []uint64) {
 
 // c14Line renders a record with the bytes the real message builders produce for it.
 func c14Line(v dastard.VerifRecord, coefBits []uint64) string {
-	rm := dastard.VerifMessageRecords(v)
-	sm := dastard.VerifMessageSummaries(v)
+	s, _ := c14LineOK(v, coefBits)
+	return s
+}
+
+// c14LineOK: ok is false when a message builder panicked on the record; the panic is an observed output
+// (`OUT PANIC <which>`), and such a record must not be handed to the publisher goroutine.
+func c14LineOK(v dastard.VerifRecord, coefBits []uint64) (line string, ok bool) {
 	f32 := func(x float64) uint32 { return math.Float32bits(float32(x)) }
-	return fmt.Sprintf("ch %d signed %d npre %d data %s period %d vpa %d time %d frame %d sum %d %d %d %d %d coefs %s OUT rh %s rp %s sh %s sp %s",
+	in := fmt.Sprintf("ch %d signed %d npre %d data %s period %d vpa %d time %d frame %d sum %d %d %d %d %d coefs %s OUT",
 		v.ChannelIndex, b2i(v.Signed), v.Presamples, ints(v.Data), math.Float32bits(v.SampPeriod), math.Float32bits(v.VoltsPerArb),
 		v.TrigTimeNs, v.TrigFrame, f32(v.PretrigMean), f32(v.PeakValue), f32(v.PulseRMS), f32(v.PulseAverage), f32(v.ResidualStdDev),
-		ints(coefBits), hexs(rm[0]), hexs(rm[1]), hexs(sm[0]), hexs(sm[1]))
+		ints(coefBits))
+	which := "records"
+	var rm, sm [][]byte
+	panicked := func() (p bool) {
+		defer func() {
+			if e := recover(); e != nil {
+				p = true
+			}
+		}()
+		rm = dastard.VerifMessageRecords(v)
+		which = "summaries"
+		sm = dastard.VerifMessageSummaries(v)
+		return false
+	}()
+	if panicked || len(rm) != 2 || len(sm) != 2 {
+		if !panicked {
+			which = "parts"
+		}
+		return in + " PANIC " + which, false
+	}
+	return fmt.Sprintf("%s rh %s rp %s sh %s sp %s", in, hexs(rm[0]), hexs(rm[1]), hexs(sm[0]), hexs(sm[1])), true
 }
 
 // c14Wire: batches of 1..4 records go through the REAL publisher goroutine (startSocket) and a ZMQ SUB
@@ -112,7 +137,23 @@ func c14Wire(r *Rng, tier string, o *Out, nbatch int) {
 			panic(err)
 		}
 		// slow joiner: publish single warm-up records until one arrives, then drain
-		warm, _ := c14Record(r, "quick")
+		// a record on which a message builder panics (reported by its own case line) must not reach the
+		// publisher goroutine: the panic there would take the whole harness down
+		draw := func() (dastard.VerifRecord, []uint64, string, bool) {
+			for try := 0; try < 50; try++ {
+				v, cb := c14Record(r, "quick")
+				if ln, ok := c14LineOK(v, cb); ok {
+					return v, cb, ln, true
+				}
+			}
+			return dastard.VerifRecord{}, nil, "", false
+		}
+		warm, _, _, wok := draw()
+		if !wok {
+			stop()
+			sub.Close()
+			continue
+		}
 		joined := false
 		for k := 0; k < 100 && !joined; k++ {
 			send([]dastard.VerifRecord{warm})
@@ -131,10 +172,18 @@ func c14Wire(r *Rng, tier string, o *Out, nbatch int) {
 			recs := make([]dastard.VerifRecord, k)
 			var sb strings.Builder
 			fmt.Fprintf(&sb, "wire sum %d n %d", b2i(summaries), k)
+			allok := true
 			for i := range recs {
-				var cb []uint64
-				recs[i], cb = c14Record(r, "quick")
-				sb.WriteString(" " + c14Line(recs[i], cb))
+				v, _, ln, ok := draw()
+				if !ok {
+					allok = false
+					break
+				}
+				recs[i] = v
+				sb.WriteString(" " + ln)
+			}
+			if !allok {
+				break
 			}
 			send(recs)
 			var msgs [][][]byte
